@@ -1011,22 +1011,31 @@ pub struct System {
 /// that the same root cause has the same key whichever property reaches it.
 pub fn panic_key(p: &PanicInfo) -> String {
     let m = &p.message;
-    if m.contains("attempt to convert KeyValueResponse other than") {
+    // A listed cause is recognised by its exact call site (file) AND its exact message; the same
+    // words anywhere else, or another message at that site, get the generic key below. Whether
+    // the INPUT really is of the listed kind is checked by the caller (C12: `listed_cause`).
+    const TIME_MESSAGES: [&str; 6] = [
+        "Incorrect response received for TimeRequest::Now",
+        "Unexpected response to TimeRequest::NotifyAt",
+        "InstantArrived with unexpected timer ID",
+        "Unexpected response to TimeRequest::Clear",
+        "Cleared with unexpected timer ID",
+        "Cleared resolved with unexpected timer ID",
+    ];
+    if m.starts_with("attempt to convert KeyValueResponse other than")
+        && p.file.ends_with("crux_kv/src/lib.rs")
+    {
         "kv/response-kind-mismatch".into()
-    } else if p.file.contains("crux_time")
-        && (m.contains("Unexpected response to TimeRequest")
-            || m.contains("Incorrect response received for TimeRequest")
-            || m.contains("unexpected timer ID"))
+    } else if p.file.ends_with("crux_time/src/command.rs")
+        && TIME_MESSAGES.iter().any(|t| m.starts_with(t))
     {
         "time/response-kind-mismatch".into()
-    } else if m.contains("Could not convert into a valid `StatusCode`")
-        || (m.contains("StatusCode") && p.file.contains("http"))
+    } else if m.starts_with("Could not convert into a valid `StatusCode`")
+        && p.file.contains("http-types")
+        && p.file.ends_with("src/response.rs")
     {
         "status-not-in-enum".into()
-    } else if m.contains("String slice should be valid ASCII")
-        || m.contains("header")
-            && (p.file.contains("http-types") || p.file.contains("crux_http/src/protocol"))
-    {
+    } else if m.starts_with("String slice should be valid ASCII") && p.file.contains("http-types") {
         "header-non-ascii".into()
     } else {
         // numbers in the message (ids, lengths) are not part of the cause
